@@ -90,54 +90,8 @@ def c16_loop_carried_args(F, rep):
 
 
 # ---------------------------------------------------------------- C17-R5
-def c17_break_only_after_transition(F, rep):
-    rep.rule("C17-R5", "FSM arm selection: the arm loop is left by `break` only when a transition was applied (flag set in the same block, or break guarded by the flag): "
-                       "an arm whose guards all fail falls through to the later arms")
-    its = [it for it in F.syn("mech_interpreter.lib") if it["k"] == "fn" and it["name"] == "execute_fsm_pipe_impl"]
-    if not rep.check(len(its) == 1, "C17-R5", "anchor:execute_fsm_pipe_impl", "execute_fsm_pipe_impl not found"):
-        return
-    it = its[0]
-    arm_loops = [lp for lp in find(it["body"], "for") if any("FsmArm::" in render_pat(a[0]) for m in find(lp[3], "match") for a in m[2])]
-    # innermost such loop only
-    arm_loops = [lp for lp in arm_loops if not any(o is not lp and any(x is lp for x in walk(o[3])) for o in arm_loops) or True]
-    if not rep.check(len(arm_loops) >= 1, "C17-R5", "anchor:arm-loop", "the loop over FsmArm arms was not found"):
-        return
-    lp = arm_loops[-1]
-    flags = {a[1][1] for a in find(lp[3], "assign") if is_node(a[1]) and a[1][0] == "path" and render(a[2]) == "true"}
-    rep.floor("C17-R5", "transition flags set inside the arm loop", len(flags), 1)
-    n = 0
-
-    def rec(stmts, depth, guarded):
-        nonlocal n
-        for i, st in enumerate(stmts):
-            if st[0] == "expr" and is_node(st[1]):
-                e = st[1]
-                if e[0] == "break" and depth == 0:
-                    n += 1
-                    prev_sets = any(s2[0] == "expr" and is_node(s2[1]) and s2[1][0] == "assign" and render(s2[1][1]) in flags and render(s2[1][2]) == "true" for s2 in stmts[:i])
-                    ok = prev_sets or guarded
-                    rep.check(ok, "C17-R5", "arm-loop-break#%d" % n,
-                              "execute_fsm_pipe_impl: a `break` leaves the arm loop without a transition having been applied (no `%s = true` before it in its block and not under `if %s`): "
-                              "when every guard of a matching arm fails, the later arms for the same state are never tried and the machine halts in that state" % ("/".join(sorted(flags)), "/".join(sorted(flags))),
-                              "execute_fsm_pipe_impl (mech_interpreter.lib)")
-                elif e[0] == "if":
-                    g = guarded or any(x[1] in flags for x in find(e[1], "path") if not render(e[1]).startswith("!"))
-                    rec(e[2], depth, g)
-                    if e[3] is not None:
-                        rec(e[3][1] if e[3][0] == "block" else [["expr", e[3], False]], depth, guarded)
-                elif e[0] == "match":
-                    for a in e[2]:
-                        rec(a[2][1] if is_node(a[2]) and a[2][0] == "block" else [["expr", a[2], False]], depth, guarded)
-                elif e[0] in ("block", "unsafe"):
-                    rec(e[1], depth, guarded)
-                elif e[0] == "for":
-                    rec(e[3], depth + 1, guarded)
-                elif e[0] == "while":
-                    rec(e[2], depth + 1, guarded)
-                elif e[0] == "loop":
-                    rec(e[1], depth + 1, guarded)
-    rec(lp[3], 0, False)
-    rep.floor("C17-R5", "breaks out of the arm loop examined", n, 2)
+# (moved: C17-R5 is decided on MIR - flag-sensitive exploration of the arm loop with must-call summaries of apply_transitions - in rules/c17.py;
+#  the syntactic version recognised only `flag = true; break` / `if flag { break }`)
 
 
 # ---------------------------------------------------------------- C14-R5
@@ -622,21 +576,64 @@ def c16_catch_all_predicate(F, rep):
 
 
 # ---------------------------------------------------------------- C17-R7 the set of runnable states is the set of states with an arm
+def _single_lets(body):
+    """name -> initialiser for names bound exactly once in the function by a plain `let name [: T] = init` (never re-bound by another pattern)"""
+    count, init = {}, {}
+    for n in walk(body):
+        if n[0] == "pident":
+            count[n[1]] = count.get(n[1], 0) + 1
+    for st in find(body, "let"):
+        pat = st[1]
+        while is_node(pat) and pat[0] == "ptype":
+            pat = pat[1]
+        if is_node(pat) and pat[0] == "pident" and len(st) > 2 and st[2] is not None and count.get(pat[1]) == 1:
+            init[pat[1]] = st[2]
+    return init
+
+
+def _resolve_locals(e, inits, depth=3):
+    """copy of expression e in which single-assignment locals are replaced by their initialiser (a named local for a sub-expression is transparent)"""
+    if not isinstance(e, list):
+        return e
+    if is_node(e) and e[0] == "path" and e[1] in inits and depth > 0:
+        r = inits[e[1]]
+        # only pure-looking initialisers: paths, fields, references, method chains without arguments that could have effects are all fine for a rendering
+        return _resolve_locals(r, inits, depth - 1)
+    return [_resolve_locals(x, inits, depth) for x in e]
+
+
+def _chain_root(e):
+    while is_node(e) and e[0] in ("mcall", "try", "paren"):
+        e = e[1]
+    return e
+
+
 def c17_state_set_from_arms(F, rep):
     rep.rule("C17-R7", "validate_fsm_state_coverage: the set the start state and every transition target are checked against is built from the implementation's arms and from nothing "
                        "else (a state that is only declared has no arm to run: the machine would stop there and return the raw state instead of FsmUndefinedState)")
-    its = [it for it in F.syn("mech_interpreter.lib") if it["k"] == "fn" and it["name"] == "validate_fsm_state_coverage"]
-    if not rep.check(len(its) == 1, "C17-R7", "anchor:validate_fsm_state_coverage", "validate_fsm_state_coverage not found"):
+    fns = {it["name"]: it for it in F.syn("mech_interpreter.lib") if it["k"] == "fn" and it["mod"].endswith("state_machines") and it.get("body") is not None}
+    it = fns.get("validate_fsm_state_coverage")
+    if not rep.check(it is not None, "C17-R7", "anchor:validate_fsm_state_coverage", "validate_fsm_state_coverage not found"):
         return
-    it = its[0]
     body = it["body"]
-    tested = {render(m[1]).lstrip("&") for m in find(body, "mcall") if m[2] == "contains" and is_node(m[1]) and m[1][0] == "path"}
-    passed = set()
+    inits = _single_lets(body)
+    ARMS = re.compile(r"^&?\(?\w+\.arms\)?$")
+
+    def contains_receivers(b):
+        return {render(m[1]).lstrip("&") for m in find(b, "mcall") if m[2] == "contains" and is_node(m[1]) and m[1][0] == "path"}
+    # sets used for validation: `contains` is called on them here, or they are handed by reference to a helper of the module that tests its parameter (or to validate_*)
+    tested = contains_receivers(body)
     for c in find(body, "call"):
-        if (path_of(c[1]) or "").startswith("validate_"):
-            for a in c[2]:
-                if is_node(a) and a[0] == "ref" and is_node(a[2]) and a[2][0] == "path":
-                    passed.add(a[2][1])
+        callee = last_seg(path_of(c[1]) or "")
+        g = fns.get(callee)
+        for i, a in enumerate(c[2]):
+            if is_node(a) and a[0] == "ref" and is_node(a[2]) and a[2][0] == "path":
+                if callee.startswith("validate_"):
+                    tested.add(a[2][1])
+                elif g is not None and i < len(g["sig"]["inputs"]):
+                    pp = g["sig"]["inputs"][i][0]
+                    if is_node(pp) and pp[0] == "pident" and pp[1] in contains_receivers(g["body"]):
+                        tested.add(a[2][1])
     n = 0
     ADD = ("extend", "insert", "union", "append", "extend_from_slice", "push")
     for st in find(body, "let"):
@@ -646,25 +643,53 @@ def c17_state_set_from_arms(F, rep):
         if pat[0] != "pident" or len(st) < 3 or st[2] is None:
             continue
         s = pat[1]
-        if s not in tested or s not in passed and s not in tested:
+        if s not in tested:
             continue
-        if not any(m[2] == "collect" for m in find(st[2], "mcall")):
+        # where the elements come from: collect() chains in the initialiser (or in the module helper that builds the set), and every later add
+        init = st[2]
+        roots = []
+        chains = [m for m in find(init, "mcall") if m[2] == "collect"]
+        if chains:
+            roots = [render(_resolve_locals(_chain_root(init), inits))]
+        else:
+            e = init
+            while is_node(e) and e[0] in ("try", "paren"):
+                e = e[1]
+            g = fns.get(last_seg(path_of(e[1]) or "")) if is_node(e) and e[0] == "call" else None
+            if g is not None:
+                gin = _single_lets(g["body"])
+                params = [p_[0][1] for p_ in g["sig"]["inputs"] if is_node(p_[0]) and p_[0][0] == "pident"]
+                for m in find(g["body"], "mcall"):
+                    if m[2] == "collect":
+                        r = render(_resolve_locals(_chain_root(m), gin))
+                        # `param.arms` of the helper, where the argument is the implementation (or a field path of it)
+                        roots.append(r)
+        adders = []
+        for m, chain in loop_chain(body, lambda x: x[0] == "mcall" and x[2] in ADD and is_node(x[1]) and render(x[1]).lstrip("&") == s):
+            over_arms = any(lp[0] == "for" and ARMS.match(render(_resolve_locals(lp[2], inits)).replace(".iter()", "")) for lp in chain)
+            if not over_arms:
+                adders.append(render(m)[:60])
+            else:
+                roots.append("fsm.arms")
+        if not roots and not adders:
             continue
         n += 1
-        root = st[2]
-        while is_node(root) and root[0] == "mcall":
-            root = root[1]
-        src = render(root)
-        ok_src = bool(re.match(r"^&?\w+\.arms$", src))
-        adders = [render(m)[:60] for m in find(body, "mcall") if m[2] in ADD and is_node(m[1]) and render(m[1]).lstrip("&") == s]
-        ok = ok_src and not adders
-        rep.check(ok, "C17-R7", "state-set:%s" % s if ok else "state-set:%s:%s" % (s, "also-" + re.sub(r"\W+", "-", adders[0])[:40] if adders else "from-" + src[:30]),
-                  "validate_fsm_state_coverage checks the start state and the transition targets against `%s`, which is built from `%s`%s: states without an arm pass validation, and a machine "
-                  "that reaches one halts there and returns the state value itself" % (s, src, (" and then grown by " + "; ".join(adders)) if adders else ""),
-                  "validate_fsm_state_coverage (mech_interpreter.lib)", sample={"set": s, "source": src, "adders": adders})
+        bad_roots = [r for r in roots if not ARMS.match(r)]
+        ok = not bad_roots and not adders
+        rep.check(ok, "C17-R7", "state-set#%d" % n if ok else ("state-set:grown-after-construction" if adders else "state-set:not-from-arms"),
+                  "validate_fsm_state_coverage checks the start state and the transition targets against a set which is built from `%s`%s: states without an arm pass validation, and a machine "
+                  "that reaches one halts there and returns the state value itself" % (", ".join(roots) or "?", (" and then grown by " + "; ".join(adders)) if adders else ""),
+                  "validate_fsm_state_coverage (mech_interpreter.lib)", sample={"source": roots, "adders": adders})
     rep.floor("C17-R7", "state sets used for validation", n, 1)
-    # the checks themselves: start state and targets are tested with contains(), failure ends in FsmUndefinedStateError
-    und = [s for s in find(body, "struct") if s[1].endswith("FsmUndefinedStateError")]
+    # the checks themselves: start state and targets are tested with contains(), failure ends in FsmUndefinedStateError (in the validator or in a module helper it calls for the start state)
+    und = [x for x in find(body, "struct") if x[1].endswith("FsmUndefinedStateError")]
+    seen = {"validate_fsm_state_coverage"}
+    # (only helpers called outside the transition loops count: the two constructions looked for are those of the start-state check)
+    for c, chain in loop_chain(body, lambda x: x[0] == "call"):
+        callee = last_seg(path_of(c[1]) or "")
+        if callee in fns and callee not in seen and not chain:
+            seen.add(callee)
+            und += [x for x in find(fns[callee]["body"], "struct") if x[1].endswith("FsmUndefinedStateError")]
     rep.floor("C17-R7", "FsmUndefinedStateError constructions in the validator", len(und), 2)
 
 
